@@ -152,7 +152,9 @@ def configs(tier, d, seed):
     base = dict(in_file=small, iters=12, burnin=2, N=5, grid_size=11, seed=11 + seed)
     out = []
     for prop in ("bootstrap", "semi-adapted", "fully-adapted"):
-        for op in ((0.0, 0.01) if tier == "thorough" else ((0.01,) if prop == "semi-adapted" else (0.0,))):
+        # outlier probability 0.3: trees regularly hold two or more outliers at once, which is when the order of the
+        # outlier collection (and anything hash-seed dependent about it) feeds the generator
+        for op in ((0.0, 0.3) if tier == "thorough" else ((0.3,) if prop in ("semi-adapted", "bootstrap") else (0.0,))):
             out.append(dict(base, proposal=prop, outlier_prob=op, subtree_prob=(0.3 if prop == "fully-adapted" else 0.0)))
     ex = dict(in_file="/repo/examples/data/mixing_small.tsv", cluster_file="/repo/examples/data/mixing_small_clusters.tsv", iters=(25 if tier == "thorough" else 14), burnin=3, N=6,
               grid_size=21, seed=3 + seed)
